@@ -17,29 +17,7 @@ TRUSTED = ["rustc MIR", "u32::from_be_bytes / str::from_utf8 / slice indexing se
 def run(ctx):
     A = ctx.A
     ctx.rule("C04-R1", "ConnectStream::run decision table")
-    fn = A.find1(r"^wtransport::driver::streams::connect::ConnectStream::run::\{closure#0\}$")
-    RF = r"await\(<impl .*?>::read_frame\(&\*\(Option::as_mut\(&\*self\.stream\) as Some\)\.0\)\)"
-    CAP = r"Capsule::with_frame\(&\(%s as Ok\)\.0\)" % RF
-    CL = r"CloseWebTransportSession::with_capsule\(&\(%s as Some\)\.0\)" % CAP
-    rows = [
-        {"name": "no stream->pending", "atoms": [r"^Option::as_mut\(&\*self\.stream\) is None$"], "leaf": r"^pending$"},
-        {"name": "close capsule->ApplicationClosed(code,reason) + reset NoError",
-         "atoms": [r" is Data$", r"^%s is Some$" % CAP, r"^%s is Ok$" % CL],
-         "events": [r"::reset\(&Option::unwrap\(Option::take\(&\*self\.stream\)\),ErrorCode::to_code\(ErrorCode::NoError\)\)$"],
-         "leaf": r"^return DriverError::ApplicationClosed\(ApplicationClose::new\(CloseWebTransportSession::error_code\(&\(%s as Ok\)\.0\),Vec::into_boxed_slice\(<impl \[T\]>::to_vec\(&\*<impl str>::as_bytes\(&\*CloseWebTransportSession::reason\(&\(%s as Ok\)\.0\)\)\)\)\)\)$" % (CL, CL)},
-        {"name": "malformed capsule->Proto(code)", "atoms": [r"^%s is Err$" % CL], "leaf": r"^return DriverError::Proto\(\(%s as Err\)\.0\)$" % CL},
-        {"name": "unknown capsule->skip", "atoms": [r"^%s is None$" % CAP], "leaf": r"^continue$"},
-        {"name": "non-DATA frame->skip", "atoms": [r" isnot Data$"], "leaf": r"^continue$"},
-        {"name": "H3(code)->Proto(code)", "atoms": [r" is H3$"], "leaf": r"^return DriverError::Proto\(\(\(%s as Err\)\.0 as H3\)\.0\)$" % RF},
-        {"name": "clean FIN->ApplicationClosed(0,[])", "atoms": [r" is ImmediateFin$"],
-         "leaf": r"^return DriverError::ApplicationClosed\(ApplicationClose::new\(VarInt::from_u32\(0\),\(Box::new\(\[\]\) as std::boxed::Box<\[u8\]>\)\)\)$"},
-        {"name": "FIN inside frame->ClosedCriticalStream", "atoms": [r" is UnexpectedFin$"], "leaf": r"^return DriverError::Proto\(ErrorCode::ClosedCriticalStream\)$"},
-        {"name": "reset->ClosedCriticalStream", "atoms": [r" is Reset$"], "leaf": r"^return DriverError::Proto\(ErrorCode::ClosedCriticalStream\)$"},
-        {"name": "NotConnected", "atoms": [r" is NotConnected$"], "leaf": r"^return DriverError::NotConnected$"},
-    ]
-    paths = walk(fn)
-    match_table(ctx, "C04-R1", fn, paths, rows, "ConnectStream::run")
-    ctx.sample({"rule": "C04-R1", "fn": fn.path, "table": [[list(path_sig(p)[0])[-3:], path_sig(p)[1][:200]] for p in paths]})
+    shared.connect_stream_run_table(ctx, "C04-R1")
     # ApplicationClose::new stores (code, reason) unchanged
     f = A.fn("wtransport::error::ApplicationClose::new")
     ps = nonpanic(walk(f))
